@@ -193,6 +193,34 @@ func (c *Ctx) typeNameRule(rule string) {
 			okT = okT && n >= 1
 		}
 		r.Check(rule, FnKey(ie)+":true⇒path-in-table", c.Pos(ie.Pos()), okT, "IsExternal must answer whether the type's package path is in the import table")
+		// … and `false` only for a type that is not named, has no package, or whose package path is not in the table – whatever
+		// name it is imported under: a dot-imported type is as foreign as any (it cannot be a receiver: `func (p *Pet) …` for
+		// a Pet of another package does not compile)
+		okF := true
+		nf := 0
+		inTable := func(x *core.Term) bool {
+			return x.Kind == "extract" && x.Name == "1" && x.Args[0].Kind == "lookup,ok" && x.Args[0].Args[1].IsCallTo("(*go/types.Package).Path")
+		}
+		for _, ret := range core.Returns(ie) {
+			t := c.O.Of(ret.Results[0])
+			d := c.ReachOf(ret)
+			switch {
+			case t.Is("const", "true"):
+			case t.Is("const", "false"):
+				nf++
+				named := func(x *core.Term) bool {
+					return x.Kind == "extract" && x.Name == "1" && x.Args[0].Kind == "typeassert,ok" && x.Args[0].Name == "*types.Named"
+				}
+				if !d.Implies(c.M(false, named), c.M(true, isNilCmp(func(x *core.Term) bool { return x.Kind == "call" && strings.HasSuffix(x.Name, ").Pkg") })), c.M(false, inTable)) {
+					okF = false
+				}
+			case inTable(t):
+				nf++ // the answer is the lookup's ok itself
+			default:
+				okF = false
+			}
+		}
+		r.Check(rule, FnKey(ie)+":false⇒not-in-table", c.Pos(ie.Pos()), okF && nf >= 1, "IsExternal answers false for a type whose package path is in the import table (e.g. for the table name \".\": a dot-imported type would be accepted as a receiver)")
 	}
 }
 
@@ -1781,12 +1809,12 @@ func (c *Ctx) overlayRule(rule string) {
 func (c *Ctx) fsReadInventory(rule string) {
 	r := c.R
 	r.Rule(rule, "file-reading inventory: the calls from module code that read the file system are exactly os.Stat of the two paths and of each file offered to the ParseFile hook, the link resolution (filepath.EvalSymlinks) of the setup file's directory and of the output path for the loader overlay, packages.Load, the package-clause parse of the setup file for the loader overlay, and imports.Process; nothing opens, reads or lists anything else (in particular nothing reads the output path: whatever it holds cannot influence the run)")
+	// per package, not per function: splitting a function into helpers moves a site without adding one
 	table := map[string]int{
-		"parser.NewParser:os.Stat": 2, "parser.NewParser$1:os.Stat": 1, "parser.NewParser:golang.org/x/tools/go/packages.Load": 1,
-		"parser.outputOverlay:os.Stat": 1, "parser.outputOverlay:go/parser.ParseFile": 1,
-		// lstat/readlink along the two paths, to compare the real directories (F58); opens nothing
-		"parser.outputOverlay:path/filepath.EvalSymlinks": 2,
-		"(*generator.Generator).Generate:golang.org/x/tools/imports.Process": 1,
+		"parser:os.Stat": 3, "parser:golang.org/x/tools/go/packages.Load": 1, "parser:go/parser.ParseFile": 1,
+		// lstat/readlink along the two paths, to compare the real directories (F59); opens nothing
+		"parser:path/filepath.EvalSymlinks": 2,
+		"generator:golang.org/x/tools/imports.Process": 1,
 	}
 	seen := map[string]int{}
 	for _, e := range c.ExternalCalls() {
@@ -1800,7 +1828,11 @@ func (c *Ctx) fsReadInventory(rule string) {
 		if !isRead {
 			continue
 		}
-		key := FnKey(e.Site.Fn) + ":" + e.Callee
+		pk := "?"
+		if p := pkgOf(e.Site.Fn); p != nil {
+			pk = p.Name()
+		}
+		key := pk + ":" + e.Callee
 		seen[key]++
 		r.Check(rule, sprintf("%s#%d", key, seen[key]), c.Pos(e.Site.Pos()), seen[key] <= table[key], "module code reads the file system at a site outside the confirmed table: "+e.Callee+" in "+FnKey(e.Site.Fn))
 	}
